@@ -9,6 +9,13 @@
 // agg_state <kind> <parts>: one metric over parts of cells of a single column (one flow per part,
 //   one batch per part), printing the merged raw state.
 // agg_bucket <gran> <week_start 0..6> <ts u64>
+// agg_bseq <mode> <gran> <tz> <week_start 0..6> <ts,ts,...> <zone rows (model side only)>
+//   a SEQUENCE of rows through the aggregate sink's own bucketing entry point (sink/aggregate/time_bucketing.rs
+//   bucket_of, reached through GroupKey) in a process whose CONFIG [time] names <tz>/<week_start> (answers
+//   "CFG <tz> <ws>" otherwise). modes r (row path: on_row, one key per row) and k (columnar path: prehash + key
+//   per row) feed one AggregateSink row by row on ONE fresh thread, every row under catch_unwind, and print the
+//   bucket of every row ("P" = that row panicked); modes o (BY g0 = row number) and n (no BY: count per bucket)
+//   send the sequence as one batch through the real AggregateOp.
 use crate::probes::hexs;
 use crate::probes::order::parse_value;
 pub const PREFIX: &str = "agg_";
@@ -117,6 +124,14 @@ fn final_str(state: &AggState, spec: &AggregateOpSpec) -> String {
 }
 
 async fn run_pipeline(metrics: &str, g: Option<TimeGranularity>, ng: usize, nf: usize, flows: Flows, raw: bool) -> Result<String, String> {
+    let out = run_pipeline_groups(metrics, g, ng, nf, flows, raw).await?;
+    let parts: Vec<String> = out.iter().map(|(b, gs, ms)| format!("{};{};{}",
+        b.map(|x| x.to_string()).unwrap_or("-".into()),
+        gs.iter().map(|g| hexs(g)).collect::<Vec<_>>().join("."), ms)).collect();
+    Ok(format!("G{} {}", parts.len(), parts.join(" ")))
+}
+
+async fn run_pipeline_groups(metrics: &str, g: Option<TimeGranularity>, ng: usize, nf: usize, flows: Flows, raw: bool) -> Result<Vec<(Option<u64>, Vec<Vec<u8>>, String)>, String> {
     let group_by: Option<Vec<String>> = if ng > 0 { Some((0..ng).map(|i| format!("g{}", i)).collect()) } else { None };
     let command = Command::Query {
         event_type: "evt".into(), context_id: None, since: None, time_field: None, sequence_time_field: None,
@@ -182,10 +197,45 @@ async fn run_pipeline(metrics: &str, g: Option<TimeGranularity>, ng: usize, nf: 
         (k.bucket, k.groups.iter().map(|g| g.as_bytes().to_vec()).collect(), ms.join(","))
     }).collect();
     out.sort();
-    let parts: Vec<String> = out.iter().map(|(b, gs, ms)| format!("{};{};{}",
-        b.map(|x| x.to_string()).unwrap_or("-".into()),
-        gs.iter().map(|g| hexs(g)).collect::<Vec<_>>().join("."), ms)).collect();
-    Ok(format!("G{} {}", parts.len(), parts.join(" ")))
+    Ok(out)
+}
+
+fn i64_column(vals: &[i64]) -> snel_db::engine::core::column::column_values::ColumnValues {
+    let mut bytes = Vec::with_capacity(vals.len() * 8);
+    for v in vals { bytes.extend_from_slice(&v.to_le_bytes()); }
+    snel_db::engine::core::column::column_values::ColumnValues::new_typed_i64(
+        Arc::new(snel_db::engine::core::read::cache::DecompressedBlock::from_bytes(bytes)), 0, vals.len(), None)
+}
+
+/// modes r / k of agg_bseq: one sink, one fresh thread, the rows one after the other.
+fn bseq_rows(columnar: bool, g: TimeGranularity, tss: Vec<i64>) -> String {
+    use snel_db::engine::core::read::sink::AggregateSink;
+    let h = std::thread::spawn(move || {
+        let n = tss.len();
+        // CountAll alone is aggregated by the columnar processor (prehash, then key for a new prehash);
+        // a MIN metric sends every row through on_row (one key per row)
+        let ops = if columnar { vec![AggregateOpSpec::CountAll] } else { vec![AggregateOpSpec::CountAll, AggregateOpSpec::Min { field: "g0".into() }] };
+        let plan = AggregatePlan { ops, group_by: Some(vec!["g0".to_string()]), time_bucket: Some(g) };
+        let mut sink = AggregateSink::from_plan(&plan);
+        sink.initialize_column_indices(&["timestamp".to_string(), "g0".to_string()]);
+        let mut cols = HashMap::new();
+        cols.insert("timestamp".to_string(), i64_column(&tss));
+        cols.insert("g0".to_string(), i64_column(&(0..n as i64).collect::<Vec<_>>()));
+        let mut panicked = vec![false; n];
+        for i in 0..n {
+            let r = std::panic::catch_unwind(std::panic::AssertUnwindSafe(|| sink.on_column_slice(i, i + 1, &cols)));
+            panicked[i] = r.is_err();
+        }
+        let mut per_row: Vec<Option<u64>> = vec![None; n];
+        let partial = sink.into_partial();
+        for (k, _) in partial.groups.iter() {
+            let idx = k.groups.get(0).and_then(|g| String::from_utf8_lossy(g.as_bytes()).parse::<usize>().ok());
+            if let (Some(i), Some(b)) = (idx, k.bucket) { if i < n { per_row[i] = Some(b); } }
+        }
+        let parts: Vec<String> = (0..n).map(|i| if panicked[i] { "P".to_string() } else { per_row[i].map(|b| b.to_string()).unwrap_or("?".into()) }).collect();
+        format!("Q {}", parts.join(","))
+    });
+    h.join().unwrap_or_else(|_| "PANIC".into())
 }
 
 pub fn run(t: &[String]) -> String {
@@ -210,6 +260,42 @@ pub fn run(t: &[String]) -> String {
             let a = cal.bucket_of(ts, &g);
             let b = utc.bucket_of(ts, &g);
             format!("C {} U {} N {}", a, b, naive_bucket_of(ts, &g))
+        }
+        "agg_bseq" => {
+            let g = match gran(&t[2]) { Some(g) => g, None => return "BADGRAN".into() };
+            let _ = rt();   // SNELDB_CONFIG default
+            let cfg = TimeConfig::from_app_config();
+            let ws = cfg.week_start.num_days_from_monday().to_string();
+            let tz = cfg.timezone.clone().unwrap_or("-".into());
+            if tz != t[3] || ws != t[4] || !cfg.use_calendar_bucketing { return format!("CFG {} {}", tz, ws); }
+            let tss: Vec<i64> = t[5].split(',').map(|x| x.parse().unwrap()).collect();
+            match t[1].as_str() {
+                "r" => bseq_rows(false, g, tss),
+                "k" => bseq_rows(true, g, tss),
+                m => {
+                    let by = m == "o";
+                    let rows: Vec<Vec<ScalarValue>> = tss.iter().enumerate().map(|(i, ts)| {
+                        let mut r = vec![ScalarValue::Int64(*ts)];
+                        if by { r.push(ScalarValue::Utf8(i.to_string())); }
+                        r
+                    }).collect();
+                    let n = rows.len();
+                    match rt().block_on(run_pipeline_groups("c", Some(g), if by { 1 } else { 0 }, 0, vec![vec![rows]], false)) {
+                        Err(_) => "ERR".into(),
+                        Ok(groups) => {
+                            if by {
+                                let mut per_row: Vec<Option<u64>> = vec![None; n];
+                                for (b, gs, _) in groups.iter() {
+                                    if let Some(i) = gs.get(0).and_then(|x| String::from_utf8_lossy(x).parse::<usize>().ok()) { if i < n { per_row[i] = *b; } }
+                                }
+                                format!("Q {}", per_row.iter().map(|b| b.map(|x| x.to_string()).unwrap_or("?".into())).collect::<Vec<_>>().join(","))
+                            } else {
+                                format!("QC {}", groups.iter().map(|(b, _, ms)| format!("{}:{}", b.map(|x| x.to_string()).unwrap_or("-".into()), ms.trim_start_matches('i'))).collect::<Vec<_>>().join(","))
+                            }
+                        }
+                    }
+                }
+            }
         }
         // agg_buckettz <gran> <week_start> <ts> <tz name> <offset secs (model side only)>
         "agg_buckettz" => {
